@@ -57,9 +57,14 @@ def verdicts_of(pattern):
 
 
 def call_split(data, rate, min_dur, max_dur, max_silence, w, style, **extra):
-    if style == "reader":
+    if style.startswith("reader"):
         src = AudioReader(data, block_dur=w, sampling_rate=rate, sample_width=2, channels=1)
+        if style == "reader+aw":
+            # for an AudioReader input w is the reader's block duration: a window keyword must not change the counting
+            extra = dict(extra, **{("analysis_window" if int(w * 1000) % 2 else "aw"): (w * 2 if int(w * 100) % 2 else w / 2)})
         return list(auditok.split(src, min_dur, max_dur, max_silence, **extra))
+    if style == "bytes-aw":
+        return list(auditok.split(data, min_dur, max_dur, max_silence, sr=rate, sw=2, ch=1, aw=w, **extra))
     return list(auditok.split(data, min_dur, max_dur, max_silence, sr=rate, sw=2, ch=1, analysis_window=w, **extra))
 
 
@@ -72,8 +77,10 @@ def accept_case(ctx, min_dur, max_dur, max_silence, w, rate):
         ctx.count("skipped_block_size_rounding_differs")
         return
     data = make_audio([(1, 2)], max(1, W.block_size(w, rate) if w > 0 else 1))
+    spelling = "bytes-aw" if (int(abs(min_dur) * 1000) + int(abs(max_dur) * 100) + rate) % 3 == 0 else "bytes"
+    ctx.count("accept_grid_spelling_" + spelling)
     try:
-        call_split(data, rate, min_dur, max_dur, max_silence, w, "bytes")
+        call_split(data, rate, min_dur, max_dur, max_silence, w, spelling)
         got = "accepted"
     except ValueError:
         got = "ValueError"
@@ -127,8 +134,29 @@ def burst_case(ctx, rng, min_dur, max_dur, max_silence, w, rate, max_windows):
         return
     drop = rng.random() < 0.5
     strict = rng.random() < 0.5
-    for pat in burst_patterns(rng, n_min, n_max, n_sil, max_windows):
-        style = rng.choice(("bytes", "reader"))
+    pats = burst_patterns(rng, n_min, n_max, n_sil, max_windows)
+    if n_max <= 12:
+        # the tokenizer's own recipes (silence straddling a cut, cut + gap + burst, event ending at end of stream ...)
+        from ..gen import validity as G
+
+        params = (n_min, n_max, n_sil, 0, 0, 0)
+        rec = G.recipes(params)
+        extra = [G.structured_random(rng, params, 40) for _ in range(6)] + (rec if n_max <= 6 else rng.sample(rec, min(20, len(rec))))
+        for v_ in extra:
+            pat, cur, n = [], None, 0
+            for x in v_:
+                if x == cur:
+                    n += 1
+                else:
+                    if cur is not None:
+                        pat.append((cur, n))
+                    cur, n = x, 1
+            if cur is not None:
+                pat.append((cur, n))
+            if pat:
+                pats.append(pat)
+    for pat in pats:
+        style = rng.choice(("bytes", "bytes-aw", "reader", "reader+aw"))
         data = make_audio(pat, block)
         v = verdicts_of(pat)
         exp = seg(v, n_min, n_max, n_sil, strict, drop)
@@ -158,7 +186,9 @@ def one_burst(ctx, case, data, v, exp, n_min, n_max, n_sil, block):
         got.append((s // block, -(-(s + ns) // block) - 1))  # first window, last window
     ctx.case(("burst", case), bool(exp))
     ctx.count("burst_cases")
-    ctx.count("burst_style_" + case["style"])
+    ctx.count("burst_style_" + case["style"].split("+")[0].split("-")[0])
+    if case["style"] == "reader+aw":
+        ctx.count("reader_with_conflicting_window_keyword")
     ctx.count("burst_regions_observed", len(got))
     ctx.count("burst_regions_expected", len(exp))
     cj = dict(case, model_counts=[n_min, n_max, n_sil])
@@ -260,7 +290,7 @@ def inconclusive(merged, tier):
     c = merged["counters"]
     return [f"monitor never observed {k}" for k in
             ("accept_grid_accepted", "accept_grid_ValueError", "burst_cases", "burst_regions_observed",
-             "burst_style_bytes", "burst_style_reader", "crisp_burst_of_exactly_ceil(min_dur/w)",
+             "burst_style_bytes", "burst_style_reader", "reader_with_conflicting_window_keyword", "accept_grid_spelling_bytes-aw", "crisp_burst_of_exactly_ceil(min_dur/w)",
              "crisp_burst_of_ceil(min_dur/w)-1", "reject_clause:window shorter than one sample",
              "reject_clause:min_dur needs more windows than max_dur allows",
              "reject_clause:max_silence not below max_dur in windows") if c.get(k, 0) == 0]
